@@ -224,7 +224,12 @@ where
                     }
                 };
                 let case = tree.current();
+                if std::env::var("VF_TRACE").is_ok() {
+                    eprintln!("TRACE {}", serde_json::to_string(&case).unwrap());
+                }
+                let w_before = crate::instr::WORK.with(|w| w.get());
                 let out = eval(check, &case);
+                let w_case = crate::instr::WORK.with(|w| w.get()) - w_before;
                 let failed = st.record(&case, &out, known);
                 if failed {
                     stop.store(true, Ordering::Relaxed);
@@ -234,10 +239,17 @@ where
                         _ => unreachable!(),
                     };
                     let mut best = (case.clone(), out.clone());
-                    let mut budget = 1500u32;
+                    // a failing case that already costs a lot of work (e.g. a run that no longer
+                    // terminates) is reported as it is: shrinking it would take minutes
+                    let mut budget = if w_case > 200_000 { 0u32 } else { 1500u32 };
+                    // shrinking is also bounded by work: a failing case of a broken solver can be slow
+                    let work0 = crate::instr::WORK.with(|w| w.get());
                     'outer: while budget > 0 && tree.simplify() {
                         loop {
                             budget -= 1;
+                            if crate::instr::WORK.with(|w| w.get()) - work0 > 2_000_000 {
+                                break 'outer;
+                            }
                             let c = tree.current();
                             let o = eval(check, &c);
                             let still = matches!(&o, Outcome::Violation{key, ..} if *key == key0);
